@@ -196,7 +196,7 @@ func (r *Run) Finish(o FinishOpts) int {
 	knownKeys := map[string]knownEntry{}
 	for _, k := range known {
 		if k.kind == "known" && k.prop == r.Prop {
-			knownKeys[k.key] = k
+			knownKeys[NormRecv(k.key)] = k
 		}
 	}
 	sort.SliceStable(r.Obls, func(i, j int) bool { return r.Obls[i].Key < r.Obls[j].Key })
@@ -212,9 +212,9 @@ func (r *Run) Finish(o FinishOpts) int {
 		case Discharged:
 			nDis++
 		case Violated, Undecided:
-			if k, ok := knownKeys[ob.Key]; ok && ob.Status == Violated {
+			if k, ok := knownKeys[NormRecv(ob.Key)]; ok && ob.Status == Violated {
 				ob.Status = Known
-				usedKnown[ob.Key] = true
+				usedKnown[NormRecv(ob.Key)] = true
 				fmt.Printf("KNOWN-FINDING: property=%s %s — %s [%s]\n", r.Prop, ob.Key, k.text, ob.Pos)
 				continue
 			}
